@@ -688,7 +688,7 @@ func genC14(tier string, n int, seed int64) {
 	fl := func(f float64) *AST { return &AST{Op: "const", V: absOf(f)} }
 	for _, p := range []string{"+", "*", "-", "/"} {
 		for _, q := range []string{"+", "*", "-", "/"} {
-			for _, k := range []float64{0.6, 0.6000000000000001, 0.006, 0.006000000000000001, 0.0, 1.5} {
+			for _, k := range []float64{0.6, 0.6000000000000001, 0.006, 0.006000000000000001, 0.25, 1.5} {
 				emit(&c14case{K: "eq", Cell: "parent=" + p + " child=" + q + " side=right float", Wrap: 1, Elem: null,
 					Ast: &AST{Op: "==", L: &AST{Op: p, L: fl(0.1), R: &AST{Op: q, L: fl(0.2), R: fl(0.3)}}, R: fl(k)}})
 				emit(&c14case{K: "eq", Cell: "parent=" + p + " child=" + q + " side=left float", Wrap: 1, Elem: null,
